@@ -77,6 +77,8 @@ class TypeRegistry:
                 raise TypeError(f'Invalid register target: {f}, must pass <{self.validator}> validate')
             self._registry.insert(0, (detector, f, priority))
             self._registry.sort(key=lambda v: -v[2])
+            # a new registration may change the resolution of types that are already memoised
+            self._cache.clear()
             return f
 
         # before runtime, type will be compiled and applied
